@@ -22,10 +22,50 @@
                                 the print (`first_free_register > REGISTER_NUM` had to be `>=`);
       `C13_sp_moves_aligned`    every SP-changing instruction of setup / cleanup / print moves SP by a
                                 multiple of 16 (alignment at every call and SP-based access).
+  * WHOLE PROGRAMS, STATIC (text level; ANY program that `compileProg a64Backend` accepts, no other
+    hypothesis — capacity = the compiler succeeds; proofs: Scc/Backend/ProofsShape.lean = induction over
+    the generic code generator, Scc/A64/CCProofsStatic.lean, CCProofsSites.lean):
+      `C13_static_shape`       the body is a sequence of PLAIN instructions (`plainCC`: not BL / RET /
+                               STP-pre / LDP-post, SP not written, SP-relative operands inside the spill
+                               area) and of WHOLE print blocks `printI64 nl t ctx`, `t` the `Snd` temporary
+                               of a variable of `ctx`
+      (i)  `C13_static_call_sites`  every `BL` of the body is the call of a print block (argument
+                               staging + save sequence + argument move before, restore sequence after, ONE
+                               context); `C13_static_saved_exact`: the saved registers are EXACTLY the
+                               caller-saved registers X0…X17 and X30 (logical 29, the link register) that
+                               hold something live (HEAP, FREE, temporaries of the context) — no hypothesis
+                               on the number of variables: the case of 13 variables (link register live)
+                               is covered; `C13_static_save_restore_mirror`; `C13_static_backup_free`
+      (ii) `C13_static_sp_aligned`  every SP-writing instruction of the ROUTINE moves SP by a multiple of
+                               16 (`spAligned routine`), `C13_static_call_aligned`: the static displacement
+                               of SP from the routine entry to every call site is a multiple of 16;
+                               `C13_static_balanced`: it is 0 at the final RET
+      (iii) `C13_static_routine`    routine = head ++ body ++ cleanup; setup stores X19/X20 … X29/X30 with
+                               pre-index −16, cleanup loads the same pairs in reverse order with post-index
+                               +16; `C13_static_spill_area`: the SP-relative operands of plain instructions
+                               lie in the 2048 bytes that setup reserves
+      (iv) `C13_static_sp_writers`  an instruction of the body that writes SP (or is BL / RET / STP / LDP)
+                               lies inside a print block.  X29 / X30 (logical 28 / 29) are ORDINARY variable
+                               registers of this backend between setup and cleanup; `BL` clobbers X30, which
+                               is why the block saves it when it is live.
+  * WHOLE PROGRAMS, DYNAMIC, INTEGER PROGRAMS (Scc/A64/CCProofsFrame.lean, CCProofsSeg.lean,
+    CCProofsRun.lean, CCProofsLayout.lean):
+      `C13_cc_never_fires_int`  THE CALLING-CONVENTION MONITOR NEVER FIRES: for all arguments, ALL fuel,
+                               every monitor configuration, the machine on the program LAID OUT (`layout`)
+                               from the lines of the routine never ends in `cc-violation`, `misaligned-call`
+                               or `misaligned-sp` (`CCSafe`); the loader is covered (`holds_layout`);
+                               `C13_cc_never_fires_int_text`: the same for `run text` for any text that
+                               parses to the lines of the routine (`Lines`; the parser ∘ printer round trip
+                               is the only part not proved).  No typing or definedness hypothesis is used.
+    WHAT REMAINS of `C13_statement`: programs with heap statements (needs the heap invariant of Theorem
+    A∘B: a store through a register other than SP could otherwise reach the save area); "nothing
+    undefined is read" for all runs (needs the value simulation); the parser round trip.
   No `bv_decide`, no `native_decide`.
 -/
 import Scc.A64.Prologue
 import Scc.A64.PrintLemmas
+import Scc.A64.CCProofsLayout
+import Scc.Backend.ProofsShapeInt
 
 set_option linter.unusedSimpArgs false
 
@@ -298,6 +338,255 @@ example : ∃ σ', execCodesOut defaultMem (printI64 true (.register (.x 5)) ctx
     (exStatePrint.setReg (ar 5) (some 42)) 42 (by decide) (by decide) (by decide)
     (by simp [State.tempVal, xreg_ar, State.reg, State.setReg])
 
+/-! ## WHOLE PROGRAMS: static (text-level) facts — every program the compiler accepts -/
+
+open Scc.Backend.Shape (IntProgC intProgC_of_intProg)
+open Scc.Props.C06Generic (IntProg)
+
+/-- SHAPE: plain instructions and whole print blocks -/
+theorem C13_static_shape {p : AxCut.Prog} {hooks : Bool} {c0 : Nat} {body routine : List Code} {nargs : Nat}
+    (h : compileProg a64Backend p hooks c0 = .ok (body, nargs, routine)) : CCShape plainCC body :=
+  (compile_ccShape h).1
+
+theorem C13_plain_spec {code : Code} (h : plainCC code = true) :
+    isStackOp code = false ∧ Register.sp ∉ codeWrites code ∧
+      ∀ bi ∈ codeMems code, bi.1 = .sp → slotOK bi.2 = true := plainCC_spec h
+
+/-- (i) every call site is the call of a print block of ONE context -/
+theorem C13_static_call_sites {p : AxCut.Prog} {hooks : Bool} {c0 : Nat} {body routine : List Code}
+    {nargs : Nat} (h : compileProg a64Backend p hooks c0 = .ok (body, nargs, routine))
+    {pre post : List Code} {f : String} (e : body = pre ++ Code.BL f :: post) :
+    ∃ pre' nl t ctx post', PrintSrc ctx t ∧ CCShape plainCC pre' ∧ CCShape plainCC post' ∧
+      f = printFn nl ∧ pre = pre' ++ blockBefore t ctx ∧ post = blockAfter ctx ++ post' :=
+  ccShape_call_site (compile_ccShape h).1 e
+
+/-- (i) the saved registers are EXACTLY the live caller-saved registers (X0…X17, X30), for EVERY
+context — in particular for 13 variables, where the link register holds a variable -/
+theorem C13_static_saved_exact (ctx : Ctx) (r : Nat) :
+    r ∈ (callerSaveRegistersInfo ctx).2 ↔ ((r ≤ 17 ∨ r = 29) ∧ LiveReg ctx r) := mem_callerSave_iff ctx r
+
+/-- (i) the restore sequence is the save sequence undone -/
+theorem C13_static_save_restore_mirror (fb : Nat) (regs : List Nat) :
+    saveCallerSaveRegisters fb regs =
+      moveCodes (saveMoves fb regs) ++
+        (if regs.length - backupUsed fb regs > 0 then
+          [.SUBI .sp .sp (address (pushedCount fb regs))] ++ strCodes (pushItems fb regs) else []) ∧
+    restoreCallerSaveRegisters fb regs =
+      moveCodes ((saveMoves fb regs).map fun p => (p.2, p.1)) ++
+        (if regs.length - backupUsed fb regs > 0 then
+          ldrCodes (pushItems fb regs).reverse ++ [.ADDI .sp .sp (address (pushedCount fb regs))] else []) ∧
+    (saveMoves fb regs).map (·.2) ++ (pushItems fb regs).map (·.1) = regs :=
+  save_restore_mirror fb regs
+
+/-- (i) the backup registers are free callee-saved registers X19…X29 -/
+theorem C13_static_backup_free (ctx : Ctx) :
+    ∀ p ∈ saveMoves (callerSaveRegistersInfo ctx).1 (callerSaveRegistersInfo ctx).2,
+      18 ≤ p.1 ∧ p.1 ≤ 28 ∧ 2 * ctx.length + 4 ≤ p.1 := backupRegs_free ctx
+
+/-- (ii) alignment at every call site of the routine -/
+theorem C13_static_call_aligned {p : AxCut.Prog} {hooks : Bool} {c0 : Nat} {body routine : List Code}
+    {nargs : Nat} (h : compileProg a64Backend p hooks c0 = .ok (body, nargs, routine))
+    {pre post : List Code} {f : String} (e : routine = pre ++ Code.BL f :: post) : spSum pre % 16 = 0 :=
+  routine_call_aligned (compile_ccShape h).1 (compile_ccShape h).2 e
+
+theorem spDelta_none_of_plain {code : Code} (h : plainCC code = true) : code.spDelta = none := by
+  obtain ⟨hso, hw, hsl⟩ := plainCC_spec h
+  have key : ∀ x : Register, x ∈ codeWrites code → x ≠ .sp := fun x hx e => hw (e ▸ hx)
+  cases code <;> simp only [isStackOp] at hso <;> (try rfl) <;> (try (cases hso; done))
+  case ADD x y z => cases x <;> first | rfl | exact absurd rfl (key .sp (by simp [codeWrites]))
+  case ADDI x y i => cases x <;> first | rfl | exact absurd rfl (key .sp (by simp [codeWrites]))
+  case SUB x y z => cases x <;> first | rfl | exact absurd rfl (key .sp (by simp [codeWrites]))
+  case SUBI x y i => cases x <;> first | rfl | exact absurd rfl (key .sp (by simp [codeWrites]))
+  case MUL x y z => cases x <;> first | rfl | exact absurd rfl (key .sp (by simp [codeWrites]))
+  case SDIV x y z => cases x <;> first | rfl | exact absurd rfl (key .sp (by simp [codeWrites]))
+  case MSUB x y z v => cases x <;> first | rfl | exact absurd rfl (key .sp (by simp [codeWrites]))
+  case ADR x l => cases x <;> first | rfl | exact absurd rfl (key .sp (by simp [codeWrites]))
+  case MOVR x y => cases x <;> first | rfl | exact absurd rfl (key .sp (by simp [codeWrites]))
+  case MOVZ x i s => cases x <;> first | rfl | exact absurd rfl (key .sp (by simp [codeWrites]))
+  case MOVN x i s => cases x <;> first | rfl | exact absurd rfl (key .sp (by simp [codeWrites]))
+  case MOVK x i s => cases x <;> first | rfl | exact absurd rfl (key .sp (by simp [codeWrites]))
+  case LDR x b i => cases x <;> first | rfl | exact absurd rfl (key .sp (by simp [codeWrites]))
+
+theorem spAligned_ccShape {body : List Code} (h : CCShape plainCC body) : spAligned body = true := by
+  induction h with
+  | nil => rfl
+  | @plain c rest hc _ ih =>
+    have : spAligned (c :: rest) = (spAligned [c] && spAligned rest) := spAligned_append [c] rest
+    rw [this, ih, Bool.and_true]
+    simp [spAligned, spDelta_none_of_plain hc]
+  | print _ _ ih =>
+    rw [spAligned_append, ih, Bool.and_true]
+    exact C13_sp_moves_aligned_print false _ _ _
+
+/-- (ii) every SP-writing instruction of the ROUTINE moves SP by a multiple of 16: with the AAPCS64 entry
+condition SP is 16-aligned at every call and at every SP-based access -/
+theorem C13_static_sp_aligned {p : AxCut.Prog} {hooks : Bool} {c0 : Nat} {body routine : List Code}
+    {nargs : Nat} (h : compileProg a64Backend p hooks c0 = .ok (body, nargs, routine)) :
+    spAligned routine = true := by
+  obtain ⟨hb, hr⟩ := compile_ccShape h
+  obtain ⟨su, hsu, hrt⟩ := routine_anatomy hr
+  obtain ⟨moves, hm, _⟩ := setup_eq hsu
+  have hn := CC.moveArguments_le nargs moves hm
+  obtain ⟨codes, hc, hal⟩ := spAligned_setup nargs hn
+  rw [hsu] at hc; cases hc
+  rw [hrt]
+  simp only [routineHead, spAligned_append, hal, spAligned_ccShape hb, spAligned_cleanup, Bool.and_true]
+  rfl
+
+/-- (ii)/(iii) the routine is balanced -/
+theorem C13_static_balanced {p : AxCut.Prog} {hooks : Bool} {c0 : Nat} {body routine : List Code}
+    {nargs : Nat} (h : compileProg a64Backend p hooks c0 = .ok (body, nargs, routine)) :
+    spSum routine.dropLast = 0 ∧ routine.getLast? = some Code.RET :=
+  routine_balanced (compile_ccShape h).1 (compile_ccShape h).2
+
+/-- (iii) anatomy of the routine and pairing of setup and cleanup -/
+theorem C13_static_routine {body routine : List Code} {n : Nat} (h : intoRoutine body n = .ok routine) :
+    (∃ su moves, setup n = .ok su ∧ moveArguments n = .ok moves ∧ su = setupPushes ++ moves ++ setupTail ∧
+      routine = routineHead su ++ body ++ cleanup) ∧
+    setupPushes = [Code.COMMENT "setup", Code.COMMENT "save registers"] ++
+      ([(18, 19), (20, 21), (22, 23), (24, 25), (26, 27), (28, 29)].map fun (p : Nat × Nat) =>
+        Code.STP_PRE_INDEX (.x p.1) (.x p.2) .sp (-16)) ++
+      [Code.COMMENT "reserve space for register spills", Code.SUBI .sp .sp 2048] ∧
+    cleanup = [Code.LAB "cleanup", Code.COMMENT "free space for register spills", Code.ADDI .sp .sp 2048,
+        Code.COMMENT "restore registers"] ++
+      ([(18, 19), (20, 21), (22, 23), (24, 25), (26, 27), (28, 29)].reverse.map fun (p : Nat × Nat) =>
+        Code.LDP_POST_INDEX (.x p.1) (.x p.2) .sp 16) ++ [Code.RET] := by
+  obtain ⟨su, hsu, hr⟩ := routine_anatomy h
+  obtain ⟨moves, hm, he⟩ := setup_eq hsu
+  exact ⟨⟨su, moves, hsu, hm, he, hr⟩, setup_cleanup_pairing⟩
+
+/-- (iii) SP-relative operands: inside the spill area, or part of a print block -/
+theorem C13_static_spill_area {p : AxCut.Prog} {hooks : Bool} {c0 : Nat} {body routine : List Code}
+    {nargs : Nat} (h : compileProg a64Backend p hooks c0 = .ok (body, nargs, routine)) (k : Nat) (code : Code)
+    (hk : body[k]? = some code) :
+    spillRefsOK code = true ∨ ∃ j nl t ctx, PrintSrc ctx t ∧ j ≤ k ∧ k < j + (printI64 nl t ctx).length ∧
+      (body.drop j).take (printI64 nl t ctx).length = printI64 nl t ctx :=
+  ccShape_spill_refs (compile_ccShape h).1 k code hk
+
+/-- (iv) whatever writes SP (or is BL / RET / STP / LDP) in the body is part of a print block -/
+theorem C13_static_sp_writers {p : AxCut.Prog} {hooks : Bool} {c0 : Nat} {body routine : List Code}
+    {nargs : Nat} (h : compileProg a64Backend p hooks c0 = .ok (body, nargs, routine)) (k : Nat) (code : Code)
+    (hk : body[k]? = some code) (hw : isStackOp code = true ∨ Register.sp ∈ codeWrites code) :
+    ∃ j nl t ctx, PrintSrc ctx t ∧ j ≤ k ∧ k < j + (printI64 nl t ctx).length ∧
+      (body.drop j).take (printI64 nl t ctx).length = printI64 nl t ctx := by
+  apply ccShape_nonplain_in_block (compile_ccShape h).1 k code hk
+  cases hp : plainCC code with
+  | false => rfl
+  | true =>
+    obtain ⟨h1, h2, _⟩ := plainCC_spec hp
+    rcases hw with hw | hw
+    · rw [h1] at hw; cases hw
+    · exact absurd hw h2
+
+/-! ## WHOLE PROGRAMS: dynamic — the calling-convention monitor never fires (integer programs) -/
+
+open Scc.A64.CC (CCSafe CfgCC cfgCC_default Lines)
+
+/-- C13 (b) for INTEGER PROGRAMS, every run of the program laid out from the lines of the routine: the
+result is never a report of the calling-convention monitor (`cc-violation`, `misaligned-call`,
+`misaligned-sp`) -/
+theorem C13_cc_never_fires_int (p : AxCut.Prog) (htp : LinTypedProg p) (hip : IntProg p) (hooks : Bool)
+    (c0 : Nat) (body routine : List Code) (nargs : Nat)
+    (hc : compileProg a64Backend p hooks c0 = .ok (body, nargs, routine)) (cfg : MonCfg) (H : CfgCC cfg.mem)
+    (hkv : String → Option (List (String × Kind))) (ls : List (Nat × PLine)) (hl : Lines hkv ls routine)
+    (args : List Word) (fuel : Nat) :
+    CCSafe (runProg (layout ls) args fuel cfg).res :=
+  CC.cc_safe_layout (intProgC_of_intProg hip htp) hc cfg H hkv ls hl args fuel
+
+/-- … on the TEXT, for any text that parses to the lines of the routine (monitor `wf` off) -/
+theorem C13_cc_never_fires_int_text (p : AxCut.Prog) (htp : LinTypedProg p) (hip : IntProg p) (hooks : Bool)
+    (c0 : Nat) (body routine : List Code) (nargs : Nat)
+    (hc : compileProg a64Backend p hooks c0 = .ok (body, nargs, routine)) (cfg : MonCfg) (H : CfgCC cfg.mem)
+    (hwf : cfg.wf = false) (hkv : String → Option (List (String × Kind))) (text : String)
+    (ls : List (Nat × PLine)) (hparse : parseText text = .ok ls) (hl : Lines hkv ls routine)
+    (args : List Word) (fuel : Nat) :
+    CCSafe (run text args fuel cfg).res :=
+  CC.cc_safe_run (intProgC_of_intProg hip htp) hc cfg H hwf hkv hparse hl args fuel
+
+/-! ## Non-vacuity of the whole-program theorems: a counting loop (a `println`, an `ifc`, arithmetic, a
+substitution and a `call` back to the entry) -/
+
+/-- `main(n, acc) { if n <= 0 { println acc; exit acc } else { one <- 1; n' <- n - one; acc' <- acc + n;
+      subst (n := n')(acc := acc'); main(...) } }` -/
+def C13_loopDef : Def :=
+  { name := ⟨"main", 0⟩, ctx := [⟨⟨"n", 1⟩, .ext, .i64⟩, ⟨⟨"acc", 2⟩, .ext, .i64⟩],
+    body := .ifc .le ⟨"n", 1⟩ none
+      (.print true ⟨"acc", 2⟩ (.exit ⟨"acc", 2⟩) none)
+      (.lit ⟨"one", 3⟩ 1 (.op ⟨"n", 4⟩ ⟨"n", 1⟩ .sub ⟨"one", 3⟩ (.op ⟨"acc", 5⟩ ⟨"acc", 2⟩ .sum ⟨"n", 1⟩
+        (.subst [(⟨⟨"n", 4⟩, .ext, .i64⟩, ⟨"n", 4⟩), (⟨⟨"acc", 5⟩, .ext, .i64⟩, ⟨"acc", 5⟩)]
+          (.call ⟨"main", 0⟩ [])) none) none) none) }
+
+def C13_loopProg : AxCut.Prog := { defs := [C13_loopDef], types := [], maxId := 5 }
+
+theorem C13_loopProg_int : IntProg C13_loopProg := by
+  intro d hd
+  simp only [C13_loopProg, List.mem_singleton] at hd
+  subst hd
+  refine ⟨?_, ?_⟩
+  · intro b hb
+    simp only [C13_loopDef, List.mem_cons, List.not_mem_nil, or_false] at hb
+    rcases hb with rfl | rfl <;> rfl
+  · simp [C13_loopDef, Scc.Props.C06Generic.IntStmt]
+
+/-- the lines of a routine whose instructions all exist (no `#ctx` hook recognised) -/
+def C13_linesOf (routine : List Code) : List (Nat × PLine) :=
+  routine.filterMap fun c => (CC.lineOf (fun _ => none) c).map fun pl => (0, pl)
+
+theorem C13_lines_of_all {routine : List Code}
+    (h : ∀ c ∈ routine, (CC.lineOf (fun _ => none) c).isSome = true) :
+    Lines (fun _ => none) (C13_linesOf routine) routine := by
+  induction routine with
+  | nil => exact .nil
+  | cons c rest ih =>
+    obtain ⟨pl, hpl⟩ := Option.isSome_iff_exists.1 (h c (by simp))
+    have : C13_linesOf (c :: rest) = (0, pl) :: C13_linesOf rest := by
+      simp [C13_linesOf, hpl]
+    rw [this]
+    exact .code 0 hpl (ih fun c' hc' => h c' (by simp [hc']))
+
+/-- the loop compiles, its body has the shape, its routine moves SP only by multiples of 16 -/
+example : ∃ body routine, compileProg a64Backend C13_loopProg true 0 = .ok (body, 2, routine) ∧
+    CCShape plainCC body ∧ spAligned routine = true ∧ spSum routine.dropLast = 0 := by
+  have hok : ∃ r, compileProg a64Backend C13_loopProg true 0 = .ok r := ⟨_, rfl⟩
+  obtain ⟨⟨body, nargs, routine⟩, hcomp⟩ := hok
+  have hnargs : nargs = 2 := by
+    have : compileProg a64Backend C13_loopProg true 0 =
+        .ok ((compileProg a64Backend C13_loopProg true 0 |>.toOption.getD ([], 0, [])).1, 2,
+          (compileProg a64Backend C13_loopProg true 0 |>.toOption.getD ([], 0, [])).2.2) := rfl
+    rw [hcomp] at this
+    injection this with this
+    injection this with _ this
+    injection this
+  subst hnargs
+  exact ⟨body, routine, hcomp, C13_static_shape hcomp, C13_static_sp_aligned hcomp,
+    (C13_static_balanced hcomp).1⟩
+
+/-- … and on the program laid out from its routine the calling-convention monitor never fires, for ALL
+arguments and ALL fuel -/
+example : ∃ routine : List Code, ∀ (args : List Word) (fuel : Nat),
+    CCSafe (runProg (layout (C13_linesOf routine)) args fuel {}).res := by
+  have hok : ∃ r, compileProg a64Backend C13_loopProg true 0 = .ok r := ⟨_, rfl⟩
+  obtain ⟨⟨body, nargs, routine⟩, hcomp⟩ := hok
+  have hall : ∀ c ∈ routine, (CC.lineOf (fun _ => none) c).isSome = true := by
+    have : routine = (compileProg a64Backend C13_loopProg true 0 |>.toOption.getD ([], 0, [])).2.2 := by
+      rw [hcomp]; rfl
+    rw [this]
+    decide
+  exact ⟨routine, fun args fuel => C13_cc_never_fires_int C13_loopProg
+    (linTypedCheck_sound C13_loopProg rfl) C13_loopProg_int true 0 body routine nargs hcomp {} cfgCC_default
+    _ _ (C13_lines_of_all hall) args fuel⟩
+
+#print axioms C13_static_shape
+#print axioms C13_static_call_sites
+#print axioms C13_static_saved_exact
+#print axioms C13_static_call_aligned
+#print axioms C13_static_sp_aligned
+#print axioms C13_static_balanced
+#print axioms C13_static_routine
+#print axioms C13_static_spill_area
+#print axioms C13_static_sp_writers
+#print axioms C13_cc_never_fires_int
+#print axioms C13_cc_never_fires_int_text
 #print axioms C13_prologue_epilogue
 #print axioms C13_exit_check
 #print axioms C13_print_preserves
